@@ -49,11 +49,15 @@ def apply(layer, what):
     layer.finalize_constraints()
 
 
-def evaluate(tf, layer, c, units, X):
-  if units == 1:
-    return layer(tf.constant(X, dtype=tf.float32)).numpy().reshape(len(X), 1)
-  Xu = np.repeat(X[:, None, :], units, axis=1)
-  return layer(tf.constant(Xu, dtype=tf.float32)).numpy()
+def evaluate(tf, layer, c, units, X, as_list=False):
+  """as_list: the other documented input form, a list of one tensor per dimension (last axis of size 1)."""
+  Xu = X if units == 1 else np.repeat(X[:, None, :], units, axis=1)
+  if as_list:
+    inp = [tf.constant(Xu[..., d:d + 1], dtype=tf.float32) for d in range(Xu.shape[-1])]
+  else:
+    inp = tf.constant(Xu, dtype=tf.float32)
+  out = layer(inp).numpy()
+  return out.reshape(len(X), 1) if units == 1 else out
 
 
 class Recorder:
@@ -72,7 +76,8 @@ class Recorder:
     W = from_var(c, layer.kernel.numpy(), units)
     S = layer.scale.numpy()
     Bv = layer.bias.numpy().reshape(-1)
-    out = evaluate(tf, layer, c, units, self.X)
+    self.nevals = getattr(self, "nevals", 0) + 1
+    out = evaluate(tf, layer, c, units, self.X, as_list=(self.tr0 + self.nevals) % 2 == 1)
     site = {"layer": "kfl", "bounds_without_monotonicity": (c["hasMin"] or c["hasMax"]) and not any(c["mono"])}
     for u in range(units):
       vals = list(W[u].reshape(-1)) + list(S[u]) + [Bv[u]]
